@@ -49,6 +49,12 @@ for fn in sorted(os.listdir("known")) if os.path.isdir("known") else []:
         else:
             if ('"id": "%s"' % fid) not in have:
                 out.append(json.dumps(d))
+            else:
+                # same id already recorded: the builder's newer record (signature / input) replaces it
+                lines = open(kf).read().splitlines()
+                lines = [json.dumps(d) if (l.startswith("{") and ('"id": "%s"' % fid) in l) else l for l in lines]
+                open(kf, "w").write("\n".join(lines) + "\n")
+                have = open(kf).read()
     os.unlink(os.path.join("known", fn))
 with open(kf, "a") as f:
     for l in out:
